@@ -26,6 +26,13 @@ type RefSketch struct {
 	Vals map[uint64]float64
 	// NonUnit: some weight other than 1 was absorbed, or the sketch was re-weighted.
 	NonUnit bool
+	// ValTotal and ValGran: total weight and granule of the absorbed multiset, maintained
+	// incrementally; they stay meaningful when the bin model does not (after a mapping change).
+	ValTotal float64
+	ValGran  int
+	// SumOverflow: at some point the exact sum (or one of its terms) left the float64 range;
+	// the implementation's running sum is then infinite or NaN for good (sticky until Clear).
+	SumOverflow bool
 	// Scale history is folded into Items (weights are rescaled in place).
 	Tainted bool
 	// Lossy: some absorbed content came from a bounded store that had already
@@ -39,7 +46,8 @@ func NewRefSketch(kind string, n int) *RefSketch {
 }
 
 func (s *RefSketch) Clone() *RefSketch {
-	c := &RefSketch{Pos: s.Pos.Clone(), Neg: s.Neg.Clone(), Zero: s.Zero, Vals: make(map[uint64]float64, len(s.Vals)), Tainted: s.Tainted, Lossy: s.Lossy, NonUnit: s.NonUnit}
+	c := &RefSketch{Pos: s.Pos.Clone(), Neg: s.Neg.Clone(), Zero: s.Zero, Vals: make(map[uint64]float64, len(s.Vals)), Tainted: s.Tainted, Lossy: s.Lossy, NonUnit: s.NonUnit,
+		ValTotal: s.ValTotal, ValGran: s.ValGran, SumOverflow: s.SumOverflow}
 	for k, v := range s.Vals {
 		c.Vals[k] = v
 	}
@@ -60,6 +68,7 @@ func (s *RefSketch) Clear() {
 	s.Zero = 0
 	s.Vals = map[uint64]float64{}
 	s.NonUnit = false
+	s.ValTotal, s.ValGran, s.SumOverflow = 0, 0, false
 	s.Tainted = false
 	s.Lossy = false
 }
@@ -79,6 +88,10 @@ func (s *RefSketch) Absorb(v, w float64, side, index int) {
 		s.Zero += w
 	}
 	s.Vals[math.Float64bits(v)] += w
+	s.ValTotal += w
+	if g, ok := GranOf(w); ok && g < s.ValGran {
+		s.ValGran = g
+	}
 	if w != 1 {
 		s.NonUnit = true
 	}
@@ -95,6 +108,13 @@ func (s *RefSketch) MergeFrom(o *RefSketch) {
 	if o.NonUnit {
 		s.NonUnit = true
 	}
+	s.ValTotal += o.ValTotal
+	if o.ValGran < s.ValGran {
+		s.ValGran = o.ValGran
+	}
+	if o.SumOverflow {
+		s.SumOverflow = true
+	}
 	if o.Tainted {
 		s.Tainted = true
 	}
@@ -109,6 +129,13 @@ func (s *RefSketch) Scale(w float64) {
 	s.Zero *= w
 	for k := range s.Vals {
 		s.Vals[k] *= w
+	}
+	s.ValTotal *= w
+	if _, e := math.Frexp(w); true {
+		s.ValGran += e - 1
+		if s.ValGran > 0 {
+			s.ValGran = 0
+		}
 	}
 	if w != 1 {
 		s.NonUnit = true
@@ -137,10 +164,17 @@ func (s *RefSketch) FitsAfter(extra float64, g int) bool {
 	if sg := s.Gran(); sg < g {
 		g = sg
 	}
+	if s.ValGran < g {
+		g = s.ValGran
+	}
 	if g < -45 {
 		return false
 	}
-	return (s.Count()+extra+1)*math.Ldexp(1, -g) < (1 << 50)
+	total := s.Count()
+	if s.ValTotal > total {
+		total = s.ValTotal // after a mapping change only the multiset knows the weight
+	}
+	return (total+extra+1)*math.Ldexp(1, -g) < (1 << 50)
 }
 
 // ItemAt returns the item holding the order statistic of 0-based rank k in a
